@@ -69,8 +69,50 @@ NAN = float("nan")
 # expression trees: ("c", float) ("v", name, shift) ("n", e) ("+"|"-"|"*"|"/", a, b) ("f", k, e)
 # ---------------------------------------------------------------------------------------
 
+# pseudo-functions of the model language, every documented spelling; node ("p", spelling, ("v", name, shift), k | None)
+PSEUDO_SPELLINGS = {"diff": ["diff"], "difflog": ["diff_log", "difflog"], "pct": ["pct"], "roc": ["roc"], "shift": ["shift"],
+                    "movsum": ["mov_sum", "movsum"], "movavg": ["mov_avg", "movavg"], "movprod": ["mov_prod", "movprod"]}
+PSEUDO_DEFAULT_SHIFT = {"diff": -1, "difflog": -1, "pct": -1, "roc": -1, "shift": -1, "movsum": -4, "movavg": -4, "movprod": -4}
+
+
+def expand(e):
+    """the tree a pseudo-function node MEANS (documented meaning; this is what the Lean model is given):
+    diff(a,k)=a-a[k], diff_log=log a-log a[k], pct=100*a/a[k]-100, roc=a/a[k], shift=a[k],
+    mov_sum(a,k)=a+a[-1]+...+a[k+1] (|k| terms), mov_avg=mov_sum/|k|, mov_prod likewise with *"""
+    k = e[0]
+    if k in ("c", "v"):
+        return tuple(e)
+    if k == "p":
+        canon = e[1].replace("_", "")
+        a = tuple(e[2])
+        sh = PSEUDO_DEFAULT_SHIFT[canon] if e[3] is None else int(e[3])
+        lag = ("v", a[1], a[2] + sh)
+        if canon == "diff":
+            return ("-", a, lag)
+        if canon == "difflog":
+            return ("-", ("f", 1, a), ("f", 1, lag))
+        if canon == "pct":
+            return ("-", ("/", ("*", ("c", 100.0), a), lag), ("c", 100.0))
+        if canon == "roc":
+            return ("/", a, lag)
+        if canon == "shift":
+            return lag
+        terms = [("v", a[1], a[2] - j) for j in range(-sh)]
+        acc = terms[0]
+        for t_ in terms[1:]:
+            acc = ("*" if canon == "movprod" else "+", acc, t_)
+        return ("/", acc, ("c", float(-sh))) if canon == "movavg" else acc
+    if k == "n":
+        return ("n", expand(e[1]))
+    if k == "f":
+        return ("f", e[1], expand(e[2]))
+    return (k, expand(e[1]), expand(e[2]))
+
+
 def render(e) -> str:
     k = e[0]
+    if k == "p":
+        return f"{e[1]}({render(e[2])}" + ("" if e[3] is None else f",{int(e[3])}") + ")"
     if k == "c":
         return repr(float(e[1])) if e[1] >= 0 else "(" + repr(float(e[1])) + ")"
     if k == "v":
@@ -84,6 +126,8 @@ def render(e) -> str:
 
 def prefix(e, row) -> str:
     k = e[0]
+    if k == "p":
+        return prefix(expand(e), row)
     if k == "c":
         return "c " + rat_of_float(e[1])
     if k == "v":
@@ -96,6 +140,8 @@ def prefix(e, row) -> str:
 
 
 def tokens_of(e, out):
+    if e[0] == "p":
+        return tokens_of(expand(e), out)
     if e[0] == "v":
         out.append((e[1], e[2]))
     elif e[0] in ("n",):
@@ -108,6 +154,8 @@ def tokens_of(e, out):
 
 
 def uses_fn(e) -> bool:
+    if e[0] == "p":
+        return e[1].replace("_", "") in ("difflog", "pct", "roc")     # log / division by a variable: keep the data positive
     if e[0] == "f":
         return True
     if e[0] in ("c", "v"):
@@ -181,8 +229,26 @@ def gen_case(rng, style=None) -> dict:
                 return rng.choice([0.5, -0.5, 0.25, 0.125, -0.125, 0.375, 1.0, -0.75])
             return rng.choice([0.5, -0.3, 0.1, 0.25, -0.125, 0.07, 0.9, 1.0])
 
+        def pseudo(x):
+            """a pseudo-function of the model language applied to a variable, in any of its documented spellings"""
+            kinds = [("diff", 3), ("shift", 2), ("movsum", 2), ("movavg", 1)]
+            if style != "linear":
+                kinds += [("movprod", 1)]
+            if style == "general":
+                kinds += [("difflog", 3), ("pct", 1), ("roc", 1)]
+            canon = rng.weighted(kinds)
+            spelling = rng.choice(PSEUDO_SPELLINGS[canon])
+            k_ = None
+            if canon in ("shift", "movsum", "movavg", "movprod") and rng.chance(0.6):
+                k_ = rng.choice([-1, -2, -3]) if canon == "shift" else rng.choice([-2, -3])
+            elif canon == "diff" and rng.chance(0.2):
+                k_ = -2
+            return ("p", spelling, x, k_)
+
         def term():
             x = leaf()
+            if x[0] == "v" and x[1] not in pars and x[2] <= 0 and rng.chance(0.12):
+                return ("*", ("c", coef()), pseudo(x))
             if style == "linear":
                 return ("*", ("c", coef()), x) if x[0] != "c" else x
             r = rng.random()
@@ -212,6 +278,8 @@ def gen_case(rng, style=None) -> dict:
         if tr in ("Log", "DiffLog"):
             rhs = ("*", ("c", 0.125), rhs)
         eqs.append({"lhs": lhs_names[i], "tr": tr, "identity": identity, "rhs": rhs})
+        if tr == "DiffLog":
+            eqs[-1]["lhs_spelling"] = rng.choice(["diff_log", "difflog"])
     # an identity and a non-identity for the same name would share plan points: keep duplicates of one kind
     if dup:
         for e in eqs:
@@ -235,14 +303,18 @@ def gen_case(rng, style=None) -> dict:
                 prep.append(["reorder", inv])         # ... and reorder_equations restores the intended one
             else:
                 prep.append(["sequentialize"])        # ... and sequentialize() has to find a valid one
+        if rng.chance(0.5):
+            prep.insert(0, ["simulate", rng.choice(["de", "ed"])])      # simulate, THEN re-order, then simulate again
         if rng.chance(0.25):
             prep.append(["copy"])
         if rng.chance(0.1):
+            if rng.chance(0.5):
+                prep.append(["simulate", rng.choice(["de", "ed"])])
             perm2 = list(range(neq))
             rng.shuffle(perm2)
             prep.append(["reorder", perm2])
-    elif rng.chance(0.05):
-        prep.append(["copy"])
+    elif rng.chance(0.08):
+        prep.append(rng.choice([["copy"], ["simulate", "de"], ["simulate", "ed"]]))
     toks = []
     for e in eqs:
         tokens_of(e["rhs"], toks)
@@ -346,7 +418,7 @@ def source_of(case) -> str:
         lines += ["!parameters", "    " + ", ".join(sorted(case["pars"]))]
     lines.append("!equations")
     for e in case["eqs"]:
-        f = TR_FUNC[e["tr"]]
+        f = e.get("lhs_spelling") or TR_FUNC[e["tr"]]
         lhs = e["lhs"] if f is None else f"{f}({e['lhs']})"
         lines.append(f"    {lhs} {'===' if e['identity'] else '='} {render(tuple_tree(e['rhs']))};")
     return "\n".join(lines) + "\n"
@@ -427,7 +499,7 @@ def request_line(case, mode, order, eff=None) -> str:
     return " ; ".join(secs)
 
 
-def apply_prep(m, case, counts=None):
+def apply_prep(m, case, counts=None, simulate=None, pre_runs=None):
     """the operations a case performs on the model object between construction and simulation (`case["prep"]`):
     ["reorder", perm] = reorder_equations(perm), ["sequentialize"], ["copy"].  Returns (model, effective order) where
     effective order[k] = index in the SOURCE of the equation that is now at position k (for `reorder` computed here from the
@@ -449,6 +521,11 @@ def apply_prep(m, case, counts=None):
             eff = [eff[i] for i in o]
         elif op[0] == "copy":
             m = m.copy()
+        elif op[0] == "simulate":
+            # a full simulation (with the case's plan and data) on this very object BEFORE the later steps; its output is judged by
+            # the oracle like any other, with the equation order the object had at that moment
+            if simulate is not None:
+                pre_runs.append((list(eff), op[1]) + simulate(m, op[1]))
         else:
             raise ValueError("unknown preparation step")
     return m, eff
@@ -458,16 +535,17 @@ def build_impl(case, counts=None):
     m = ir.Sequential.from_string(source_of(case))
     if case["pars"]:
         m.assign(**case["pars"])
-    m, eff = apply_prep(m, case, counts)
     p0 = period0(case)
     npre, nper, npost = case["npre"], case["nper"], case["npost"]
     span = p0 >> (p0 + nper - 1)
     db = ir.Databox()
     for n, col in case["data"].items():
         db[n] = ir.Series(start=p0 - npre, values=np.array([NAN if v is None else v for v in col], dtype=float))
-    plan = None
-    if case["plan"]:
-        plan = ir.SimulationPlan(m, span)
+
+    def make_plan(model):
+        if not case["plan"]:
+            return None
+        plan = ir.SimulationPlan(model, span)
         for p in case["plan"]:
             kw = {}
             if p["when"]:
@@ -475,7 +553,28 @@ def build_impl(case, counts=None):
             if p["shift"] != -1:
                 kw["shift"] = p["shift"]
             plan.exogenize(tuple(p0 + c for c in p["cols"]), p["name"], transform=PLAN_KW[p["kind"]], **kw)
-    return m, db, span, plan, eff
+        return plan
+
+    def simulate(model, order):
+        try:
+            out = model.simulate(db, span, plan=make_plan(model), when_simulates_nan="silent",
+                                 execution_order="dates_equations" if order == "de" else "equations_dates")
+        except Exception as e:
+            return err_kind(e), None, None
+        return "ok", output_values(case, out, span), out
+    pre_runs = []
+    m, eff = apply_prep(m, case, counts, simulate, pre_runs)
+    return m, db, span, make_plan(m), eff, pre_runs
+
+
+def output_values(case, out, span):
+    vals = {}
+    for n in out_names(case):
+        try:
+            vals[n] = [float(x) for x in out[n].get_data(span).ravel()]
+        except Exception:
+            vals[n] = [NAN] * case["nper"]
+    return vals
 
 
 def run_impl(case, order, built=None):
@@ -486,18 +585,12 @@ def run_impl(case, order, built=None):
             built = build_impl(case)
         if isinstance(built, BaseException):
             raise built
-        m, db, span, plan, _ = built
+        m, db, span, plan, *_ = built
         out = m.simulate(db, span, plan=plan, when_simulates_nan="silent",
                          execution_order="dates_equations" if order == "de" else "equations_dates")
     except Exception as e:
         return err_kind(e), None, None
-    vals = {}
-    for n in out_names(case):
-        try:
-            vals[n] = [float(x) for x in out[n].get_data(span).ravel()]
-        except Exception:
-            vals[n] = [NAN] * case["nper"]
-    return "ok", vals, out
+    return "ok", output_values(case, out, span), out
 
 
 def parse_reply(case, reply):
@@ -528,6 +621,10 @@ def parse_reply(case, reply):
 
 class Skip(Exception):
     pass
+
+
+# default window / lag of the pseudo-functions as documented (names with underscores removed)
+ORACLE_PSEUDO_DEFAULT = {"diff": -1, "difflog": -1, "roc": -1, "pct": -1, "shift": -1, "movsum": -4, "movavg": -4, "movprod": -4}
 
 
 class TextEval:
@@ -577,15 +674,33 @@ class TextEval:
                     return self.note(math.log(x))
                 if x < 0: raise Skip()
                 return self.note(math.sqrt(x))
-            if f in ("diff", "diff_log", "roc", "pct"):
-                cur, lag = self.ev(node.args[0], shift), self.ev(node.args[0], shift - 1)
-                if f == "diff":
+            canon = f.replace("_", "")           # documented alternative spellings: diff_log/difflog, mov_sum/movsum, ...
+            if canon in ORACLE_PSEUDO_DEFAULT and len(node.args) in (1, 2):
+                k = ORACLE_PSEUDO_DEFAULT[canon] if len(node.args) == 1 else int(ast.literal_eval(node.args[1]))
+                arg = node.args[0]
+                if canon == "shift":
+                    return self.ev(arg, shift + k)
+                if canon in ("movsum", "movavg", "movprod"):
+                    if k >= 0:
+                        raise ValueError("moving window with a non-negative length is not generated")
+                    window = [self.ev(arg, shift - j) for j in range(-k)]     # the current and the |k|-1 previous observations
+                    if canon == "movprod":
+                        r = 1.0
+                        for w in window:
+                            r = self.note(r * w)
+                        return r
+                    tot = 0.0
+                    for w in window:
+                        tot = self.note(tot + w)
+                    return tot if canon == "movsum" else self.note(tot / len(window))
+                cur, lag = self.ev(arg, shift), self.ev(arg, shift + k)
+                if canon == "diff":
                     return self.note(cur - lag)
-                if f == "diff_log":
+                if canon == "difflog":
                     if cur <= 0 or lag <= 0: raise Skip()
                     return self.note(math.log(cur) - math.log(lag))
                 if lag == 0: raise Skip()
-                return self.note(cur / lag) if f == "roc" else self.note(100 * (cur / lag - 1))
+                return self.note(cur / lag) if canon == "roc" else self.note(100 * (cur / lag - 1))
         raise ValueError("unsupported syntax in equation text: " + ast.dump(node)[:60])
 
     def note(self, r):
@@ -612,10 +727,20 @@ def text_names(text):
         elif isinstance(node, ast.Subscript):
             out.append((node.value.id, shift + int(ast.literal_eval(node.slice))))
         elif isinstance(node, ast.Call):
-            for a in node.args:
-                walk(a, shift)
-                if node.func.id in ("diff", "diff_log", "roc", "pct"):
-                    walk(a, shift - 1)
+            canon = node.func.id.replace("_", "")
+            if canon in ORACLE_PSEUDO_DEFAULT:
+                k = ORACLE_PSEUDO_DEFAULT[canon] if len(node.args) == 1 else int(ast.literal_eval(node.args[1]))
+                if canon == "shift":
+                    walk(node.args[0], shift + k)
+                elif canon.startswith("mov"):
+                    for j in range(-k):
+                        walk(node.args[0], shift - j)
+                else:
+                    walk(node.args[0], shift)
+                    walk(node.args[0], shift + k)
+            else:
+                for a in node.args:
+                    walk(a, shift)
         else:
             for ch in ast.iter_child_nodes(node):
                 if not isinstance(ch, (ast.operator, ast.unaryop, ast.expr_context)):
@@ -708,7 +833,7 @@ def oracle(ctx: Ctx, case, order, status, vals, out_db, eff=None):
                 res_v = 0.0 if rcol is None or rcol[npre + c] is None else rcol[npre + c]
                 # a NaN left-hand side is only excusable when something the equation needs is NaN/undefined, or when the
                 # point is exogenized at a NaN target without when_data
-                func = e["lhs"].split("(")[0].strip() if "(" in e["lhs"] else None
+                func = e["lhs"].split("(")[0].strip().replace("_", "") if "(" in e["lhs"] else None
                 tgt_fmt = None if point is None else PLAN_FMT[point["kind"]]
                 tgt_col = None if tgt_fmt is None else case["data"].get(tgt_fmt.format(e["name"]))
                 no_data = point is not None and point["when"] and tgt_fmt is not None and (tgt_col is None or tgt_col[npre + c] is None)
@@ -875,6 +1000,13 @@ def run_cases(ctx: Ctx, cases, with_model=True):
     lines_r = [request_line(cases[ci], "R", o, effs[ci]) for ci, o in jobs]
     lines_f = [request_line(cases[ci], "F", o, effs[ci]) for ci, o in jobs]
     rep = ctx.model("C17", lines_r + lines_f) if with_model else None
+    for ci, b in enumerate(built):
+        if isinstance(b, BaseException):
+            continue
+        for (eff0, order0, status0, vals0, out0) in b[5]:
+            ctx.evaluations += 1
+            ctx.count("prep_simulate_judged")
+            oracle(ctx, cases[ci], order0, status0, vals0, out0, eff0)
     for k, (ci, order) in enumerate(jobs):
         case, eff = cases[ci], effs[ci]
         status, vals, out_db = run_impl(case, order, built[ci])
@@ -891,6 +1023,11 @@ def run_cases(ctx: Ctx, cases, with_model=True):
         for p in case["plan"]:
             ctx.count("plan_" + p["kind"] + ("_when_data" if p["when"] else ""))
         ctx.count("impl_" + status)
+        if order == "de":
+            src_text = source_of(case)
+            for sp in sorted(set(x for v in PSEUDO_SPELLINGS.values() for x in v)):
+                if sp + "(" in src_text:
+                    ctx.count("source_uses_" + sp)
         if rep is not None:
             compare_case(ctx, case, order, status, vals, rep[k], rep[len(jobs) + k])
         oflags, oclosed = oracle(ctx, case, order, status, vals, out_db, eff)
@@ -924,7 +1061,7 @@ def probe_rejections(ctx: Ctx, rng, n):
     for _ in range(n):
         case = gen_case(rng.fork("rej"))
         try:
-            m, db, span, _, _ = build_impl({**case, "plan": [], "prep": []})
+            m, db, span, *_ = build_impl({**case, "plan": [], "prep": []})
         except Exception:
             continue
         idents = sorted(set(e["lhs"] for e in case["eqs"] if e["identity"]) - set(e["lhs"] for e in case["eqs"] if not e["identity"]))
@@ -951,7 +1088,9 @@ RULE = ("random sequential models (1-8 equations; LHS transforms none/log/diff/d
         "occasional duplicate LHS / forward same-period reads / self reads to reach non-admissible steps) x random data with NaNs x "
         "residual paths (absent, sparse, dense, NaN) x plans (exogenize with transforms none/log/diff/diff_log/roc/pct/flat, when_data, "
         "shifts -1..-3) x multi-step use of the model object before simulating (source written in a shuffled order then reorder_equations / "
-        "sequentialize(), random re-orderings, copy(); the same object simulated under both orders) x both execution orders. A case is non-trivial when it has >= 2 equations and >= 2 periods or mixes simulated and "
+        "sequentialize(), random re-orderings, copy(), full simulations with the plan before and between the re-orderings; the same "
+        "object simulated under both orders) x pseudo-functions in every documented spelling (diff, diff_log/difflog, pct, roc, shift, "
+        "mov_sum/movsum, mov_avg/movavg, mov_prod/movprod, with and without explicit window) on right-hand sides, diff_log/difflog on the left x both execution orders. A case is non-trivial when it has >= 2 equations and >= 2 periods or mixes simulated and "
         "exogenized steps; distinct = distinct (order, #equations, #periods, set of LHS transforms, set of plan transforms, fallback seen, exact class)")
 
 
